@@ -98,6 +98,11 @@ def check_case(ctx, case):
         except pb.RangeError as e:
             err = e
             rows = list(e.incomplete_trajectory)
+        except (ArithmeticError, ValueError, IndexError, TypeError) as exc:
+            # "it either returns a trajectory reaching the requested range, or raises a range error"
+            ctx.violation("other-exception", f"fire() raised {type(exc).__name__}: {exc} - neither a trajectory nor a range error", case)
+            ctx.case(case, nontrivial=True)
+            return
         except monitors.StepBudgetExceeded:
             ctx.violation("no-termination-within-budget",
                           f"fire() took more than {step_budget} integration steps; an independent flight of this shot violates the "
@@ -194,6 +199,9 @@ def check_case(ctx, case):
                                                             req["extra"], req.get("time_step", 0.0)))
             except pb.RangeError as e2:
                 trows = list(e2.incomplete_trajectory)
+            except (ArithmeticError, ValueError, IndexError, TypeError) as exc:
+                trows = None
+                bad("other-exception", f"the same shot with relaxed limits {relaxed}: fire() raised {type(exc).__name__}: {exc} - neither a trajectory nor a range error")
             except monitors.StepBudgetExceeded:
                 trows = None
                 ctx.skip("twin run exceeded its own (generous) step budget")
